@@ -644,5 +644,74 @@ theorem c07_to_beta3_agree (ev : Ev S B) (hev : EvTables ev) (K : Consts S) (A :
     rw [hv, ← hm]
     rfl
 
+/-! ### 4. (a) AGREEMENT — conversions -/
+
+/-- `to_Vector2D`, `to_Vector3D`, `to_Vector4D` without arguments: literally the interpreter's rule (stored coordinates
+verbatim, `z = 0.0`, `t = 0.0`, same flavor) -/
+theorem c07_to_Vector_agree (ev : Ev S B) (K : Consts S) (A : Arith S) (self : Vec S) (hbe : self.ty.be = .obj)
+    (n : String) (hn : n ∈ ["to_Vector2D", "to_Vector3D", "to_Vector4D"]) :
+    numbaCall ev K A n self [] = call ev K A n self [] := by
+  each_mem hn
+  · have e2 : numbaCall ev K A "to_Vector2D" self [] =
+        if nbGuard self [] = true then .error .unmodelled else call ev K A "to_Vector2D" self [] := rfl
+    rw [e2, nbGuard_nil self hbe]; rfl
+  · have e2 : numbaCall ev K A "to_Vector3D" self [] =
+        if nbGuard self [] = true then .error .unmodelled else call ev K A "to_Vector3D" self [] := rfl
+    rw [e2, nbGuard_nil self hbe]; rfl
+  · have e2 : numbaCall ev K A "to_Vector4D" self [] =
+        if nbGuard self [] = true then .error .unmodelled else call ev K A "to_Vector4D" self [] := rfl
+    rw [e2, nbGuard_nil self hbe]; rfl
+
+/-- "whenever the left computation succeeds, the right one succeeds with the same value" -/
+private def Le {α : Type} (a b : Except Err α) : Prop := ∀ r, a = .ok r → b = .ok r
+
+private theorem Le.rfl' {α : Type} (a : Except Err α) : Le a a := fun _ h => h
+
+private theorem Le.bind {α β : Type} (a a' : Except Err α) (f f' : α → Except Err β) (h1 : Le a a')
+    (h2 : ∀ x, Le (f x) (f' x)) : Le (a >>= f) (a' >>= f') := by
+  intro r h
+  cases ha : a with
+  | error e => rw [ha] at h; cases h
+  | ok x =>
+    rw [ha] at h
+    rw [h1 x ha]
+    exact h2 x r h
+
+private theorem Le.mapM {α β : Type} (f g : α → Except Err β) (hfg : ∀ x, Le (f x) (g x)) :
+    ∀ l : List α, Le (l.mapM f) (l.mapM g) := by
+  intro l
+  induction l with
+  | nil => exact Le.rfl' _
+  | cons x xs ih =>
+    rw [List.mapM_cons, List.mapM_cons]
+    refine Le.bind _ _ _ _ (hfg x) (fun y => Le.bind _ _ _ _ ih (fun ys => Le.rfl' _))
+
+/-- the 20 coordinate changes at the enum level: every output coordinate is read through the same accessor module,
+a missing group is `0.0` of the requested type, the flavor is kept -/
+theorem c07_toSystem_agree (ev : Ev S B) (hev : EvTables ev) (zeroF : S) (v : Vec S) (az : Az) (lon : Option Lon)
+    (tmp : Option Tmp) (r : Vec S) (h : toSystem ev zeroF v az lon tmp none none = .ok r) :
+    nbToSystem ev zeroF v az lon tmp = .ok r := by
+  have hg : ∀ a, Le (getS ev a v) (nbGetS ev a v) := fun a s hs => c07_getS_agree ev hev a v s hs
+  revert r h
+  show Le _ _
+  unfold toSystem nbToSystem
+  refine Le.bind _ _ _ _ (Le.mapM _ _ (fun n => hg _) _) (fun azv => ?_)
+  refine Le.bind _ _ _ _ ?_ (fun lonv => ?_)
+  · cases lon with
+    | none => exact Le.rfl' _
+    | some l =>
+      simp only []
+      split
+      · exact Le.bind _ _ _ _ (hg _) (fun _ => Le.rfl' _)
+      · exact Le.rfl' _
+  refine Le.bind _ _ _ _ ?_ (fun tmpv => Le.rfl' _)
+  cases tmp with
+  | none => exact Le.rfl' _
+  | some t =>
+    simp only []
+    split
+    · exact Le.bind _ _ _ _ (hg _) (fun _ => Le.rfl' _)
+    · exact Le.rfl' _
+
 end
 end VG
